@@ -680,4 +680,241 @@ theorem afterTraverse_ok (gv : Graph) (hsym : EdgeSym gv) (s : State) (w next pr
             rw [q3.eff.wd_setWd hw, q3.wd w]
             refine ⟨q3.eff.setWd _, rfl, Or.inr (Or.inr (Or.inr ⟨next, c, hlast, rfl, hrel, Or.inl ((hsym next c).mpr hmem)⟩)), hd1⟩
 
+/-! ## `startTest` -/
+
+theorem eff_nextTag (w : Nat) (X : Option Nat) (s : State) (t : Nat) : Eff w X s { s with nextTag := t } :=
+  ⟨rfl, rfl, rfl, fun _ _ => rfl, fun _ => Or.inl rfl⟩
+
+theorem startTest_ok (g : Graph) (s : State) (n w : Nat) (ph : Phase) (dir : Dir) (hw : w < s.workers.length) :
+    Eff w none s (startTest g s n w ph dir).1 ∧
+    ((startTest g s n w ph dir).1.wd w).path = (s.wd w).path ∧
+    (∃ uid tag, ((startTest g s n w ph dir).1.wd w).pc = .test n ph dir uid tag 0) ∧
+    (g.idIn w n = true → StartsOK g w (startTest g s n w ph dir).2.1) := by
+  unfold startTest
+  dsimp only
+  split
+  · have e1 : Eff w none s { s with nextTag := s.nextTag + 1 } := eff_nextTag w none s _
+    refine ⟨e1.setWd _, ?_, ?_, ?_⟩
+    · rw [e1.wd_setWd hw]; rfl
+    · rw [e1.wd_setWd hw]; exact ⟨_, _, rfl⟩
+    · intro hid e he
+      simp only [List.mem_singleton] at he
+      rw [he]
+      exact ⟨rfl, n, ph, rfl, hid⟩
+  · have e1 : Eff w none s { s with nextTag := s.nextTag + 1 } := eff_nextTag w none s _
+    have e2 : Eff w none s (State.setNd { s with nextTag := s.nextTag + 1 } n (fun d => { d with results := d.results ++
+        [{ name := (g.node n).name, status := "UNKNOWN", uid := "", tag := s.nextTag }] })) :=
+      e1.trans (Qt.eff (qt_setNd w none { s with nextTag := s.nextTag + 1 } n (fun d => { d with results := d.results ++
+        [{ name := (g.node n).name, status := "UNKNOWN", uid := "", tag := s.nextTag }] }) (fun _ => Or.inl rfl)))
+    refine ⟨e2.setWd _, ?_, ?_, ?_⟩
+    · rw [e2.wd_setWd hw]; rfl
+    · rw [e2.wd_setWd hw]; exact ⟨_, _, rfl⟩
+    · intro hid e he
+      simp only [List.mem_singleton] at he
+      rw [he]
+      exact ⟨rfl, n, ph, rfl, hid⟩
+
+theorem startPre_ok (g : Graph) (s1 : State) (w next : Nat) (dir : Dir) (R : List Result) (N : String)
+    (hw : w < s1.workers.length) :
+    Eff w none s1 (startTest g (s1.setWd w (fun d => { d with preResults := R, preName := N })) next w .pre dir).1 ∧
+    ((startTest g (s1.setWd w (fun d => { d with preResults := R, preName := N })) next w .pre dir).1.wd w).path =
+      (s1.wd w).path ∧
+    (∃ uid tag, ((startTest g (s1.setWd w (fun d => { d with preResults := R, preName := N })) next w .pre dir).1.wd w).pc =
+      .test next .pre dir uid tag 0) ∧
+    (g.idIn w next = true →
+      StartsOK g w (startTest g (s1.setWd w (fun d => { d with preResults := R, preName := N })) next w .pre dir).2.1) := by
+  have hw2 : w < (s1.setWd w (fun d => { d with preResults := R, preName := N })).workers.length := by
+    simp [State.setWd]; exact hw
+  obtain ⟨a, b, c, d⟩ := startTest_ok g (s1.setWd w (fun d => { d with preResults := R, preName := N })) next w .pre dir hw2
+  refine ⟨(eff_setWd w none s1 _).trans a, ?_, c, d⟩
+  rw [b, wd_setWd_eq s1 w _ hw]
+
+/-! ## `traverseNode`, `iter` -/
+
+/-- what one iteration of worker `w` (or the first part of it) does: either nothing is entered — marks only disappear,
+the path changes by one of the four moves (or the worker exits), the pc stays or becomes `bounce`/`done` — or the last
+node `next` of the path is entered and the piece ends inside its execution or with an exception -/
+def StepOK (gv : Graph) (w : Nat) (s : State) (r : Step) : Prop :=
+  StartsOK gv w r.2.1 ∧
+  ((Eff w none s r.1 ∧
+      ((PathEff gv w (s.wd w).path (r.1.wd w).path ∧ ((r.1.wd w).pc = (s.wd w).pc ∨ (r.1.wd w).pc = .bounce)) ∨
+       ((r.1.wd w).path = [] ∧ (r.1.wd w).pc = .done ∧ r.2.2 = .exit))) ∨
+   (∃ next, (s.wd w).path.getLast? = some next ∧ 2 ≤ (s.wd w).path.length ∧ Eff w (some next) s r.1 ∧
+      (r.1.wd w).path = (s.wd w).path ∧
+      ((∃ what, r.2.2 = .raise what ∧ (r.1.wd w).pc = (s.wd w).pc) ∨
+       (r.2.2 = .suspend ∧ gv.idIn w next = true ∧ ∃ ph dir uid tag, (r.1.wd w).pc = .test next ph dir uid tag 0))))
+
+theorem StepOK.unchanged (gv : Graph) (w : Nat) (s : State) (f : Flow) : StepOK gv w s (s, [], f) :=
+  ⟨StartsOK.nil gv w, Or.inl ⟨Eff.refl _ _ _, Or.inl ⟨Or.inl rfl, Or.inl rfl⟩⟩⟩
+
+/-- entering a copy, some quiet pieces, leaving it again: the net effect is quiet -/
+theorem enter_finish_qt (w : Nat) (s s1 : State) (next : Nat)
+    (q : Qt w none (s.setNd next (fun d => { d with started := some w })) s1) :
+    Qt w none s (finishTraverse s1 next w) := by
+  have hlen : s1.nodes.length = s.nodes.length := by rw [q.nodesLen, nodes_length_setNd]
+  refine ⟨q.workers, q.hidden, by unfold finishTraverse; rw [nodes_length_setNd, hlen], fun i => ?_⟩
+  unfold finishTraverse
+  by_cases hi : i = next
+  · subst hi
+    by_cases hl : i < s.nodes.length
+    · right; left
+      rw [nd_setNd_eq s1 i _ (by rw [hlen]; exact hl)]
+    · rw [nd_setNd_of_ge s1 i _ (by rw [hlen]; exact hl)]
+      rcases q.marks i with h | h | h
+      · left; rw [h, nd_setNd_of_ge s i _ hl]
+      · exact Or.inr (Or.inl h)
+      · exact absurd h.1 (by simp)
+  · rw [nd_setNd_ne s1 next i _ hi]
+    rcases q.marks i with h | h | h
+    · left; rw [h, nd_setNd_ne s next i _ hi]
+    · exact Or.inr (Or.inl h)
+    · exact absurd h.1 (by simp)
+
+theorem traverseNode_ok (gv : Graph) (hsym : EdgeSym gv) (s : State) (w next prev : Nat) (dir : Dir)
+    (hw : w < s.workers.length) (hlast : (s.wd w).path.getLast? = some next) (hlen : 2 ≤ (s.wd w).path.length) :
+    StepOK gv w s (traverseNode gv s w next prev dir) := by
+  unfold traverseNode
+  by_cases hocc : isOccupied gv s next w = true
+  · simp only [hocc, if_true]
+    obtain ⟨a, b, c, d⟩ := afterTraverse_ok gv hsym s w next prev dir hw hlast hlen
+    exact ⟨d.startsOK gv w, Or.inl ⟨a, Or.inl ⟨c, Or.inl b⟩⟩⟩
+  · simp only [hocc, Bool.false_eq_true, if_false]
+    have qE : Qt w (some next) s (s.setNd next (fun d => { d with started := some w })) := qt_enter w s next
+    have qP0 : Qt w none (s.setNd next (fun d => { d with started := some w }))
+        (pullLocations gv (s.setNd next (fun d => { d with started := some w })) next) := qt_pullLocations w none gv _ next
+    have qP := qE.trans qP0.weaken
+    cases hd : runDecision gv (pullLocations gv (s.setNd next (fun d => { d with started := some w })) next) next w with
+    | error e =>
+      exact ⟨StartsOK.nil gv w, Or.inr ⟨next, hlast, hlen, qP.eff, by rw [qP.wd w], Or.inl ⟨e, rfl, by rw [qP.wd w]⟩⟩⟩
+    | ok r =>
+      obtain ⟨run, s1, evs⟩ := r
+      have q10 : Qt w none (s.setNd next (fun d => { d with started := some w })) s1 :=
+        qP0.trans (qt_runDecision w none gv _ next w run s1 evs hd)
+      have q1 : Qt w (some next) s s1 := qE.trans q10.weaken
+      have hd1 : DoorsOnly evs := runDecision_doors gv _ next w run s1 evs hd
+      have hw1 : w < s1.workers.length := by rw [q1.workers]; exact hw
+      dsimp only
+      by_cases hrun : run = true
+      · subst hrun
+        have hid := (runDecision_true_own gv _ next w s1 evs hd).1
+        simp only [if_true]
+        by_cases hroot : (gv.node next).objectRoot = true
+        · simp only [hroot, if_true]
+          obtain ⟨a, b, ⟨uid, tag, c⟩, d⟩ := startPre_ok gv s1 w next dir (s1.nd next).results
+            ("all.internal.stateless.noop.vms." ++ " ".intercalate (gv.node next).objs ++ ".nets." ++
+                (gv.worker w).swarm ++ "." ++ ((gv.worker w).id.splitOn ".").getLast!) hw1
+          refine ⟨hd1.startsOK gv w |>.append (d hid), Or.inr ⟨next, hlast, hlen, q1.eff.trans a.weaken, ?_,
+            Or.inr ⟨by simp only [startTest_flow], hid, _, _, uid, tag, c⟩⟩⟩
+          rw [b, q1.wd w]
+        · simp only [hroot, Bool.false_eq_true, if_false]
+          obtain ⟨a, b, ⟨uid, tag, c⟩, d⟩ := startTest_ok gv s1 next w .plain dir hw1
+          refine ⟨hd1.startsOK gv w |>.append (d hid), Or.inr ⟨next, hlast, hlen, q1.eff.trans a.weaken, ?_,
+            Or.inr ⟨by simp only [startTest_flow], hid, _, _, uid, tag, c⟩⟩⟩
+          rw [b, q1.wd w]
+      · simp only [hrun, Bool.false_eq_true, if_false]
+        have qF : Qt w none s (finishTraverse s1 next w) := enter_finish_qt w s s1 next q10
+        have hwF : w < (finishTraverse s1 next w).workers.length := by rw [qF.workers]; exact hw
+        obtain ⟨a, b, c, d⟩ := afterTraverse_ok gv hsym (finishTraverse s1 next w) w next prev dir hwF
+          (by rw [qF.wd w]; exact hlast) (by rw [qF.wd w]; exact hlen)
+        rw [qF.wd w] at b c
+        exact ⟨(hd1.append d).startsOK gv w, Or.inl ⟨qF.eff.trans a, Or.inl ⟨c, Or.inl b⟩⟩⟩
+
+theorem lt_of_path_ne_nil (s : State) (w : Nat) (h : (s.wd w).path ≠ []) : w < s.workers.length := by
+  by_cases hl : w < s.workers.length
+  · exact hl
+  · exfalso; apply h
+    unfold State.wd
+    rw [List.getD_eq_getElem?_getD, List.getElem?_eq_none (by omega)]; rfl
+
+theorem iter_ok (gv : Graph) (hsym : EdgeSym gv) (s : State) (w : Nat) : StepOK gv w s (iter gv s w) := by
+  unfold iter
+  dsimp only
+  split
+  · split
+    · next hp =>
+      have hp' : (s.wd w).path = [gv.root] := by simpa using hp
+      have hw : w < s.workers.length := lt_of_path_ne_nil s w (by rw [hp']; simp)
+      refine ⟨fun e he => ?_, Or.inl ⟨eff_setWd w none s _, Or.inr ?_⟩⟩
+      · simp only [List.mem_singleton] at he; rw [he]; trivial
+      · rw [(Eff.refl w none s).wd_setWd hw]; exact ⟨rfl, rfl, rfl⟩
+    · exact StepOK.unchanged gv w s _
+  · cases hl : (s.wd w).path.getLast? with
+    | none => exact StepOK.unchanged gv w s _
+    | some next =>
+      have hne : (s.wd w).path ≠ [] := by intro h; rw [h] at hl; simp at hl
+      have hw : w < s.workers.length := lt_of_path_ne_nil s w hne
+      dsimp only
+      split
+      · cases hp : pickChild gv s next w with
+        | none => exact StepOK.unchanged gv w s _
+        | some r =>
+          obtain ⟨c, s1⟩ := r
+          dsimp only
+          have q1 : Qt w none s s1 := pickChild_qt w none gv s next w c s1 hp
+          obtain ⟨hrel, hmem⟩ := pickChild_rel gv s next w c s1 hp
+          unfold pushPath
+          refine ⟨StartsOK.nil gv w, Or.inl ⟨q1.eff.setWd _, Or.inl ⟨?_, ?_⟩⟩⟩
+          · rw [q1.eff.wd_setWd hw, q1.wd w]
+            exact Or.inr (Or.inr (Or.inr ⟨next, c, hl, rfl, hrel, Or.inl ((hsym next c).mpr hmem)⟩))
+          · rw [q1.eff.wd_setWd hw, q1.wd w]; exact Or.inl rfl
+      · next hlen1 =>
+        have hlen : 2 ≤ (s.wd w).path.length := by
+          have h0 : 0 < (s.wd w).path.length := List.length_pos_iff.mpr hne
+          have h1 : (s.wd w).path.length ≠ 1 := by simpa using hlen1
+          omega
+        split
+        · -- bounce
+          refine ⟨fun e he => ?_, ?_⟩
+          · simp only [List.mem_singleton] at he; rw [he]; trivial
+          · left
+            have key : ∀ (sx : State) (f : WorkerD → WorkerD), Eff w none s sx → (∀ d, (f d).path = [gv.root]) →
+                (∀ d, (f d).pc = .bounce) →
+                Eff w none s (sx.setWd w f) ∧
+                  ((PathEff gv w (s.wd w).path ((sx.setWd w f).wd w).path ∧
+                    (((sx.setWd w f).wd w).pc = (s.wd w).pc ∨ ((sx.setWd w f).wd w).pc = .bounce)) ∨
+                  (((sx.setWd w f).wd w).path = [] ∧ ((sx.setWd w f).wd w).pc = .done ∧ Flow.suspend = .exit)) := by
+              intro sx f ex h1 h2
+              refine ⟨ex.setWd _, Or.inl ⟨?_, ?_⟩⟩
+              · rw [ex.wd_setWd hw, h1]; exact Or.inr (Or.inr (Or.inl rfl))
+              · rw [ex.wd_setWd hw, h2]; exact Or.inr rfl
+            refine key _ _ ?_ (fun _ => rfl) (fun _ => rfl)
+            split
+            · refine Eff.setWd ?_ _
+              split
+              · refine (qt_setNd w none s next _ ?_).eff
+                intro d; exact Or.inl rfl
+              · exact Eff.refl _ _ _
+            · exact eff_setWd w none s _
+        · split
+          · split
+            · exact traverseNode_ok gv hsym s w next _ .up hw hl hlen
+            · cases hp : pickParent gv s next w with
+              | none => exact StepOK.unchanged gv w s _
+              | some r =>
+                obtain ⟨c, s1⟩ := r
+                dsimp only
+                have q1 : Qt w none s s1 := pickParent_qt w none gv s next w c s1 hp
+                obtain ⟨hrel, hmem⟩ := pickParent_rel gv s next w c s1 hp
+                unfold pushPath
+                refine ⟨StartsOK.nil gv w, Or.inl ⟨q1.eff.setWd _, Or.inl ⟨?_, ?_⟩⟩⟩
+                · rw [q1.eff.wd_setWd hw, q1.wd w]
+                  exact Or.inr (Or.inr (Or.inr ⟨next, c, hl, rfl, hrel, Or.inr ((hsym c next).mp hmem)⟩))
+                · rw [q1.eff.wd_setWd hw, q1.wd w]; exact Or.inl rfl
+          · split
+            · split
+              · cases hp : pickParent gv s next w with
+                | none => exact StepOK.unchanged gv w s _
+                | some r =>
+                  obtain ⟨c, s1⟩ := r
+                  dsimp only
+                  have q1 : Qt w none s s1 := pickParent_qt w none gv s next w c s1 hp
+                  obtain ⟨hrel, hmem⟩ := pickParent_rel gv s next w c s1 hp
+                  unfold pushPath
+                  refine ⟨StartsOK.nil gv w, Or.inl ⟨q1.eff.setWd _, Or.inl ⟨?_, ?_⟩⟩⟩
+                  · rw [q1.eff.wd_setWd hw, q1.wd w]
+                    exact Or.inr (Or.inr (Or.inr ⟨next, c, hl, rfl, hrel, Or.inr ((hsym c next).mp hmem)⟩))
+                  · rw [q1.eff.wd_setWd hw, q1.wd w]; exact Or.inl rfl
+              · exact traverseNode_ok gv hsym s w next _ .down hw hl hlen
+            · exact StepOK.unchanged gv w s _
+
 end I2N.Trav
